@@ -23,6 +23,13 @@ type item struct {
 	key string
 }
 
+func pick[T any](cond bool, a, b T) T {
+	if cond {
+		return a
+	}
+	return b
+}
+
 // idOf names a value handed out by the cache; 0 stands for the zero value, which no
 // create function of this world ever produces.
 func idOf(v *item) int {
@@ -181,6 +188,7 @@ type world struct {
 	cpanicAt map[string]bool
 	// create functions that end their goroutine (runtime.Goexit)
 	cgoexitAt map[string]bool
+	noCB      bool
 	helperN   int
 	poisoned map[string]bool
 	abandon  bool
@@ -328,6 +336,9 @@ func (w *world) Setup(e *sim.Env) {
 	}
 	w.capa = int(w.c.Knob("capacity", 2))
 	w.flavor = w.c.Knob("flavor", 0)
+	// a cache built without a delete callback (it is optional): what leaves the cache is not
+	// observable then, everything else is judged as usual
+	w.noCB = w.c.Knob("no_callback", 0) == 1 && w.flavor != 2
 	w.keyBuf = map[string]*mkey{}
 	for _, f := range w.c.Faults {
 		switch f.Kind {
@@ -363,7 +374,7 @@ func (w *world) Setup(e *sim.Env) {
 		c, err = glru.NewCache[string, *item](w.capa, func(k string) (*item, error) {
 			it, _, err := w.load(k)
 			return it, err
-		}, func(k string, v *item) { w.onDelete(k, idOf(v)) })
+		}, pick(w.noCB, nil, func(k string, v *item) { w.onDelete(k, idOf(v)) }))
 		w.cache = plainCache{c}
 	case 1:
 		var c *glru.ECache[ekey, string, *item]
@@ -373,26 +384,26 @@ func (w *world) Setup(e *sim.Env) {
 				w.createdPK[it.id] = k
 			}
 			return it, err
-		}, func(k ekey, v *item) {
+		}, pick(w.noCB, nil, func(k ekey, v *item) {
 			if pk, ok := w.createdPK[idOf(v)]; ok && pk != k {
 				e.Violate(w.delProp(), "delete_wrong_args", "the delete callback got key %v for value #%d, but that entry was created with key %v (the caller used an alias that maps to the same inner key)", k, v.id, pk)
 			}
 			w.onDelete(k.A, idOf(v))
-		})
+		}))
 		w.cache = eCache{c, w}
 	case 3:
 		var c *glru.ECache[*mkey, string, *item]
 		c, err = glru.NewECache[*mkey, string, *item](w.capa, mMap, func(k *mkey) (*item, error) {
 			it, _, err := w.load(k.A)
 			return it, err
-		}, func(k *mkey, v *item) {
+		}, pick(w.noCB, nil, func(k *mkey, v *item) {
 			// the stored key object has been overwritten since: the entry is identified by its value
 			if v == nil {
 				w.onDelete(k.A, idOf(v))
 				return
 			}
 			w.onDelete(w.created[v.id], v.id)
-		})
+		}))
 		w.cache = mCache{c, w}
 	default:
 		var c *glru.ExpirableCache[string, glru.ExpirableItem[*item]]
@@ -639,7 +650,7 @@ func (w *world) doOp(idx int, name string, op sim.Op) {
 		}
 		sort.Ints(ids)
 		for _, id := range ids {
-			if w.retStamp[id] < call && w.deleted[id] == 0 {
+			if w.retStamp[id] < call && w.deleted[id] == 0 && !w.noCB {
 				e.Violate("C09", "cleared_but_not_deleted", "Clear() returned, but value #%d of key %q (created by a call that had returned before Clear was invoked) has not been passed to the delete callback yet", id, w.created[id])
 				break
 			}
@@ -738,6 +749,9 @@ func (w *world) Finished(e *sim.Env) bool {
 					// clauses are judged in this mode (never twice, never for an entry that stays)
 					break
 				}
+				if w.noCB {
+					break
+				}
 				if w.deleted[id] != 1 {
 					e.Violate(w.delProp(), "delete_count", "value #%d of key %q was created successfully but the delete callback ran %d times for it by the time the cache was cleared", id, w.created[id], w.deleted[id])
 					break
@@ -814,7 +828,7 @@ func (w *world) linStep(st linState, in linIn, out lruOut) (bool, linState) {
 				want = ents[0]
 				ents = ents[1:]
 			}
-			if out.evicted != want {
+			if out.evicted != want && !w.noCB {
 				return false, st
 			}
 			return true, linState{strings.Join(ents, ",")}
@@ -825,7 +839,7 @@ func (w *world) linStep(st linState, in linIn, out lruOut) (bool, linState) {
 		if out.res == "absent" {
 			return i < 0 && out.evicted == "", st
 		}
-		if i < 0 || out.evicted != ents[i] {
+		if i < 0 || (out.evicted != ents[i] && !w.noCB) {
 			return false, st
 		}
 		ents = append(append([]string{}, ents[:i]...), ents[i+1:]...)
@@ -839,7 +853,7 @@ func (w *world) linStep(st linState, in linIn, out lruOut) (bool, linState) {
 		b := append([]string{}, ents...)
 		sort.Strings(a)
 		sort.Strings(b)
-		if strings.Join(a, ",") != strings.Join(b, ",") {
+		if strings.Join(a, ",") != strings.Join(b, ",") && !w.noCB {
 			return false, st
 		}
 		return true, linState{}
